@@ -46,6 +46,10 @@ def gen_calls(rng, n):
                 "trace": True, "twice": True}
         if rng.random() < 0.08:
             kw["seed"] = 2 ** 31 - 1 - rng.randint(0, 2)        # the largest seeds a C int holds
+        if rng.random() < 0.2:
+            call["positional"] = True
+        if rng.random() < 0.2:
+            call["sched_tuple"] = True
         if rng.random() < 0.15:
             # real coefficients far below 1: the whole model and the temperatures scaled by 2^-43 or 2^-30 (exact in binary
             # floating point); the record keeps the numerators, so the specification sees the same small integers
